@@ -8,6 +8,7 @@ import (
 	"log"
 	"os"
 	"sort"
+	"strings"
 	"testing"
 	"time"
 
@@ -48,6 +49,7 @@ type Summary struct {
 	Policies    map[string]int   `json:"policies"`
 	Foreign     int              `json:"foreign_failures"`
 	ForeignSig  map[string]int   `json:"foreign_sigs"`
+	ForeignEx   map[string]string `json:"foreign_examples"`
 	HarnessErrs []string         `json:"harness_errs"`
 	LastIndex   int              `json:"last_index"`
 }
@@ -212,7 +214,26 @@ func workerBatch(t *testing.T, job *Job, scs []*Scenario, emit func(any)) {
 			}
 		} else if len(res.Failures) > 0 {
 			sum.Foreign++
-			sum.ForeignSig[res.Failures[0].Kind+"|"+res.Failures[0].Check]++
+			fk := res.Failures[0].Kind + "|" + res.Failures[0].Check
+			sum.ForeignSig[fk]++
+			if sum.ForeignEx == nil {
+				sum.ForeignEx = map[string]string{}
+			}
+			ek := fk + "|" + res.Failures[0].Site
+			if _, ok := sum.ForeignEx[ek]; !ok && len(sum.ForeignEx) < 12 {
+				d := res.Failures[0].Detail
+				if len(d) > 300 {
+					d = d[:300]
+				}
+				st := res.Failures[0].Stack
+				if i := strings.Index(st, "panic("); i >= 0 {
+					st = st[i:]
+				}
+				if len(st) > 900 {
+					st = st[:900]
+				}
+				sum.ForeignEx[ek] = fmt.Sprintf("seed %d: %s %s", seed, d, st)
+			}
 		}
 	}
 	for d := range dig {
